@@ -3,13 +3,12 @@
 # Prints the check's verdict lines; exit code = the check's exit code (1 = detected).
 P=$1; ID=$2; TIER=${3:-quick}
 cd /verif
-if ! git -C /repo diff --quiet; then echo "/repo has local modifications; refusing" >&2; exit 9; fi
+if [ -n "$(git -C /repo status --porcelain)" ]; then echo "/repo has local modifications; refusing" >&2; exit 9; fi
 if ! git -C /repo apply "$P" 2>/dev/null; then
-  if ! git -C /repo apply -3 "$P" 2>/dev/null; then echo "patch does not apply" >&2; git -C /repo checkout -- . ; exit 8; fi
-  git -C /repo reset -q
+  if ! (cd /repo && patch -p1 -s -F3 --no-backup-if-mismatch < "$P" >/dev/null 2>&1); then
+    echo "patch does not apply" >&2; git -C /repo reset -q --hard HEAD; git -C /repo clean -fdq; exit 8
+  fi
 fi
 VERIF_SEED=${VERIF_SEED:-1} ./check "$ID" --tier "$TIER" 2>&1 | grep -v '^  ' | tail -${LINES_OUT:-6}
-rc=$?
-git -C /repo checkout -- .
+git -C /repo reset -q --hard HEAD
 git -C /repo clean -fdq
-exit $rc
